@@ -8,6 +8,7 @@ import (
 	"crypto/ed25519"
 	"crypto/elliptic"
 	"crypto/rand"
+	crsa "crypto/rsa"
 	"crypto/x509/pkix"
 	"encoding/hex"
 	"errors"
@@ -31,7 +32,7 @@ var _ = pkix.Name{}
 
 func init() {
 	zv.Register(&zv.Prop{ID: "C03", Topic: "c03", Gen: gen, Exec: exec,
-		Rule: "api: every (creation API in {CreateCertificate, CreateCertificateRequest, CreateCRL, CreateRevocationList, ocsp.CreateResponse}, SignatureAlgorithm 0..17, key in {RSA, ECDSA P-256/P-384, Ed25519}) create -> parse -> own verification API, plus verification after mutating the signed bytes / signature; csfk: x509.CheckSignatureFromKey on genuine signatures (RSA 1024/1536/2048 PKCS#1 v1.5 and PSS per hash, DSA L1024N160, ECDSA P-256/P-384 as *ecdsa.PublicKey and as *AugmentedECDSA, Ed25519) and on mutations of message, signature (bit flips, truncation, extension, DER re-encodings: trailing bytes, third INTEGER, non-minimal lengths/integers, negative/zero r,s), key and claimed algorithm (all 18 values); a case is one distinct line; T3 = strict reference verifiers (own strict DER reader + crypto/ecdsa.VerifyASN1 / dsa.Verify / crypto/rsa / ed25519.Verify)"})
+		Rule: "api: every (creation API in {CreateCertificate, CreateCertificateRequest, CreateCRL, CreateRevocationList, ocsp.CreateResponse}, SignatureAlgorithm 0..17, key in {RSA, ECDSA P-256/P-384, Ed25519}) create -> parse -> own verification API, plus verification after mutating the signed bytes / signature; csfk: x509.CheckSignatureFromKey on genuine signatures (RSA 1280/1536/2048 and moduli of 1025/1281/1031/2049/1545/1028 bits, i.e. bit length = 1..7 mod 8, PKCS#1 v1.5 and PSS per hash, DSA L1024N160, ECDSA P-256/P-384 as *ecdsa.PublicKey and as *AugmentedECDSA, Ed25519) and on mutations of message, signature (bit flips, truncation, extension, RSA forgeries made with the private key: roots of EM + 2^(modBits-1) (must-be-zero top bit / leading octet of the PSS representative), of EM + j*256^(k-1) and of structurally damaged EM, s + j*n, n - s, zero-extended; DER re-encodings: trailing bytes, third INTEGER, non-minimal lengths/integers, negative/zero r,s), key and claimed algorithm (all 18 values); a case is one distinct line; T3 = strict reference verifiers (own strict DER reader + crypto/ecdsa.VerifyASN1 / dsa.Verify / crypto/rsa (directly, wherever its key limits allow) / ed25519.Verify)"})
 }
 
 const (
@@ -246,9 +247,27 @@ func exec(line string) zv.Out {
 			case !known:
 				ref = false
 			case sa.pss:
-				ref = zrsa.VerifyPSS(k, sa.h, digestFor(algo, msg), sig, &zrsa.PSSOptions{SaltLength: zrsa.PSSSaltLengthEqualsHash}) == nil
+				// crypto/rsa wherever its key limits allow (odd N, odd 3 <= E < 2^31); otherwise zcrypto/rsa, which C23 ties to it
+				if sp := c23.StdPub(k); sp != nil {
+					tags = append(tags, "ref=crypto/rsa")
+					e2, decided := c23.StdVerifyPSS(sp, sa.h, digestFor(algo, msg), sig, crsa.PSSSaltLengthEqualsHash)
+					ref = decided && e2 == nil
+					if !decided { // the reference itself panicked (see c23.StdVerifyPSS): fall back to zcrypto/rsa
+						ref = zrsa.VerifyPSS(k, sa.h, digestFor(algo, msg), sig, &zrsa.PSSOptions{SaltLength: zrsa.PSSSaltLengthEqualsHash}) == nil
+					}
+				} else {
+					ref = zrsa.VerifyPSS(k, sa.h, digestFor(algo, msg), sig, &zrsa.PSSOptions{SaltLength: zrsa.PSSSaltLengthEqualsHash}) == nil
+				}
 			default:
-				ref = zrsa.VerifyPKCS1v15(k, sa.h, digestFor(algo, msg), sig) == nil // C23 ties this verifier to crypto/rsa
+				if sp := c23.StdPub(k); sp != nil {
+					tags = append(tags, "ref=crypto/rsa")
+					ref = crsa.VerifyPKCS1v15(sp, sa.h, digestFor(algo, msg), sig) == nil
+				} else {
+					ref = zrsa.VerifyPKCS1v15(k, sa.h, digestFor(algo, msg), sig) == nil // C23 ties this verifier to crypto/rsa
+				}
+			}
+			if k.N != nil {
+				tags = append(tags, fmt.Sprintf("bits%%8=%d", k.N.BitLen()%8))
 			}
 			if known && sa.fam != "rsa" {
 				refKnown = false // algorithm of another key family claimed with an RSA key: see finding F-C03-family
